@@ -247,7 +247,6 @@ class Frame:
 
     def variants(self):
         from inscripta.biocantor.gene.variants import VariantInterval, VariantIntervalCollection
-        from bcv.gen import genes as GG
 
         ps = self.fr.get("pspec")
         genome = (ps or {}).get("genome")
@@ -258,7 +257,9 @@ class Frame:
         S, E = self.S, min(self.E, n)
         for mode in ("same", "none"):
             try:
-                par = GG.build_parent(ps) if mode == "same" else None
+                from bcv.gen import c19_objects as OBJ
+
+                par = OBJ._gene_parent(ps) if mode == "same" else None
             except Exception:  # noqa: BLE001
                 continue
             win = ps.get("window") if (ps and ps.get("mode") == "chunk" and mode == "same") else None
@@ -480,11 +481,104 @@ def judge(ctx, where, labels, res, exc, sigbase, reproduce):
     ctx.note(sigbase + (where[1], labels, "ok"), klass=None)
 
 
+def curated_calls(obj, frame):
+    """Operations that are public but not plain named members: the data-model protocol the class itself defines
+    (len / str / repr / hash / == / iteration / ordering / pickling via __getstate__), the static constructors driven with
+    the object's own export, and the io.models round trip.  -> list of (pseudo-member, labels, thunk)."""
+    import pickle
+
+    from inscripta.biocantor.gene.cds import CDSInterval
+    from inscripta.biocantor.gene.collections import AnnotationCollection
+    from inscripta.biocantor.gene.feature import FeatureInterval, FeatureIntervalCollection
+    from inscripta.biocantor.gene.gene import GeneInterval
+    from inscripta.biocantor.gene.interval import AbstractInterval
+    from inscripta.biocantor.gene.transcript import TranscriptInterval
+    from inscripta.biocantor.gene.variants import VariantInterval, VariantIntervalCollection
+    from inscripta.biocantor.io import models as MD
+    from inscripta.biocantor.location.location import Location
+    from inscripta.biocantor.sequence import Sequence
+
+    cls = type(obj)
+    out = []
+
+    def defines(name):
+        return any(name in vars(k) for k in cls.__mro__ if k is not object)
+
+    if defines("__len__"):
+        out.append(("__len__", (), lambda: len(obj)))
+    if defines("__str__"):
+        out.append(("__str__", (), lambda: str(obj)))
+    if defines("__repr__"):
+        out.append(("__repr__", (), lambda: repr(obj)))
+    if defines("__hash__") and cls.__hash__ is not None:
+        out.append(("__hash__", (), lambda: hash(obj)))
+    if defines("__eq__"):
+        out.append(("__eq__", ("self",), lambda: obj == obj))
+        out.append(("__eq__", ("other-type",), lambda: obj == 5))
+        out.append(("__eq__", ("none",), lambda: obj != None))  # noqa: E711
+    if defines("__iter__"):
+        out.append(("__iter__", (), lambda: list(itertools.islice(iter(obj), MAX_ITEMS))))
+    if defines("__lt__") and isinstance(obj, Location):
+        for lab, other in frame.locations():
+            if type(other).__name__ != "_EmptyLocation":
+                out.append(("__lt__", (lab,), lambda other=other: obj < other))
+    if defines("__getstate__") and defines("__setstate__"):
+        out.append(("pickle", ("roundtrip",), lambda: pickle.loads(pickle.dumps(obj))))
+    if isinstance(obj, Sequence):
+        n = len(obj)
+        for lab, key in (("0", 0), ("last", n - 1), ("-1", -1), ("slice-all", slice(0, n)), ("slice-empty-at-end", slice(n, n)), ("slice-inner", slice(1, max(1, n - 1)))):
+            if n > 0:
+                out.append(("__getitem__", (lab,), lambda key=key: obj[key]))
+    if isinstance(obj, AbstractInterval):
+        pars = [("none", None)] + [p for p in frame.parents(False) if p[0] in ("chromosome", "chunk-cover", "chunk-miss", "chromosome-no-sequence")]
+        for lab, par in pars:
+            out.append(("from_dict", ("to_dict()", lab), lambda par=par: cls.from_dict(obj.to_dict(), par)))
+        if isinstance(obj, AnnotationCollection):
+            out.append(("from_dict", ("to_dict(export_parent)", "default"), lambda: cls.from_dict(obj.to_dict(export_parent=True))))
+        if isinstance(obj, (CDSInterval, TranscriptInterval, FeatureInterval)):
+            def from_loc(fn, loc):
+                if isinstance(obj, CDSInterval):
+                    return fn(loc, list(obj.frames))
+                if isinstance(obj, TranscriptInterval):
+                    return fn(loc, cds=obj.cds)
+                return fn(loc)
+
+            out.append(("from_location", ("chromosome_location",), lambda: from_loc(cls.from_location, obj.chromosome_location)))
+            out.append(("from_location", ("chunk_relative_location",), lambda: from_loc(cls.from_location, obj.chunk_relative_location)))
+            out.append(("from_chunk_relative_location", ("chunk_relative_location",), lambda: from_loc(cls.from_chunk_relative_location, obj.chunk_relative_location)))
+            out.append(("from_chunk_relative_location", ("chromosome_location",), lambda: from_loc(cls.from_chunk_relative_location, obj.chromosome_location)))
+        model = {TranscriptInterval: ("TranscriptIntervalModel", "from_transcript_interval", "to_transcript_interval"),
+                 FeatureInterval: ("FeatureIntervalModel", "from_feature_interval", "to_feature_interval"),
+                 VariantInterval: ("VariantIntervalModel", "from_variant_interval", "to_variant_interval"),
+                 GeneInterval: ("GeneIntervalModel", "from_gene_interval", "to_gene_interval"),
+                 FeatureIntervalCollection: ("FeatureIntervalCollectionModel", "from_feature_collection", "to_feature_collection"),
+                 VariantIntervalCollection: ("VariantIntervalCollectionModel", "from_variant_interval_collection", "to_variant_interval_collection"),
+                 AnnotationCollection: ("AnnotationCollectionModel", "from_annotation_collection", "to_annotation_collection")}.get(cls)
+        if model:
+            mname, frm, to = model
+            mcls = getattr(MD, mname)
+            for lab, par in pars[:3]:
+                out.append((f"models.{mname}", ("roundtrip", lab), lambda par=par: getattr(getattr(mcls, frm)(obj), to)(par)))
+            if cls is AnnotationCollection:
+                out.append((f"models.{mname}", ("roundtrip-export-parent",), lambda: mcls.from_annotation_collection(obj, export_parent=True).to_annotation_collection()))
+                out.append((f"models.{mname}", ("schema-dump",), lambda: mcls.Schema().dump(obj)))
+    return out
+
+
 def sweep(ctx, obj, fr, aseed, budget, sigbase, only=None):
     """Sweep every public member of obj.  sigbase: tuple put in front of every call signature."""
     rng = random.Random(aseed)
     frame = Frame(obj, fr, rng)
     owner = type(obj).__name__
+    for name, labels, thunk in curated_calls(obj, frame):
+        if only and name not in only:
+            continue
+        res, exc = ctx.call(guarded, thunk)
+        if exc is not None and B.classify_exception(exc)[0] == "harness":
+            # nothing of BioCantor ran (e.g. the schema library refused the exported record itself): not a boundary event
+            ctx.bump("curated-no-biocantor-frame:" + type(exc).__name__)
+            continue
+        judge(ctx, (owner, name), labels, res, exc, sigbase, {"curated": name, "variant": list(labels)})
     for name, kind, fn in public_members(obj):
         if only and name not in only:
             continue
